@@ -27,7 +27,8 @@ import RV.Base.SetList
 
   ## Dataset / ConjunctiveGraph level (functions taking a `Cfg`)
 
-  `_graph`, `_spoc`, `add`, `addN`, `remove`, `triples` (context resolution
+  `_graph`, `_spoc`, `add`, `addN`, `remove`, `triples_choices`, `triples` (graph resolution for
+  property-path predicates included; context resolution
   `context if context is not None else c`, default ↔ union mapping by `default_union`),
   `__contains__`, `quads`, `__len__`, `contexts`/`graphs`, `graph`/`add_graph`,
   `remove_graph`, `remove_context`, exactly in the order the code performs them,
@@ -230,6 +231,49 @@ def cgTriples (cfg : Cfg) (m : Mem) (tq : TQ) (context : GArg) : Mem × List Tri
   let m2 := graphEff cfg m1 g
   (m2, (m2.triples tq.pat (resolveCtx cfg g.key)).map (·.1))
 
+/-- the graph a *property-path* pattern is evaluated over by `ConjunctiveGraph.triples`
+    (`p.eval(context, s, o)`): the same resolution as for a plain pattern.  `none` = the
+    dataset itself (`context = self`), only reached under `default_union`, i.e. the union. -/
+def cgPathGraph (cfg : Cfg) (tq : TQ) (context : GArg) : Option Key :=
+  resolveCtx cfg (pickCtx context (spocKey cfg tq false)).key
+
+/-- the same for `(s, path, o, g) in ds` (`__contains__` → `triples((s,p,o), context=c)`) -/
+def cgPathGraphContains (cfg : Cfg) (tq : TQ) : Option Key :=
+  cgPathGraph cfg (.tri tq.pat) (asView (spocKey cfg tq false))
+
+/-! ### `triples_choices` -/
+
+/-- the argument of `triples_choices`: exactly one position is a list of terms -/
+inductive Choice
+  | subj (l : List Nat) (p o : Option Nat)
+  | pred (s : Option Nat) (l : List Nat) (o : Option Nat)
+  | obj (s p : Option Nat) (l : List Nat)
+  deriving Repr
+
+/-- `Store.triples_choices`: an empty list is falsy and stands for the wildcard -/
+def choiceList (l : List Nat) : List (Option Nat) :=
+  match l with
+  | [] => [none]
+  | _ => l.map some
+
+/-- the plain patterns `Store.triples_choices` dispatches to `triples`, in order -/
+def Choice.pats : Choice → List TPat
+  | .subj l p o => (choiceList l).map (fun x => (x, p, o))
+  | .pred s l o => (choiceList l).map (fun x => (s, x, o))
+  | .obj s p l => (choiceList l).map (fun x => (s, p, x))
+
+/-- context resolution of `ConjunctiveGraph.triples_choices`: `None` → the default graph unless
+    `default_union`; a given graph is used as given (no default ↔ union mapping here) -/
+def resolveChoiceCtx (cfg : Cfg) (c : Option Key) : Option Key :=
+  match c with
+  | none => if cfg.du then none else some cfg.dflt
+  | some k => some k
+
+/-- `ConjunctiveGraph.triples_choices(choice, context)` -/
+def cgTriplesChoices (cfg : Cfg) (m : Mem) (ch : Choice) (context : GArg) : Mem × List Triple :=
+  let m1 := graphEff cfg m context
+  (m1, ch.pats.flatMap (fun p => (m1.triples p (resolveChoiceCtx cfg context.key)).map (·.1)))
+
 /-- `ConjunctiveGraph.__contains__(tq)` -/
 def cgContains (cfg : Cfg) (m : Mem) (tq : TQ) : Mem × Bool :=
   let m1 := spocEff cfg m tq
@@ -279,6 +323,8 @@ def vRemove (m : Mem) (k : Key) (p : TPat) : Mem := m.remove p (some k)
 def vTriples (m : Mem) (k : Key) (p : TPat) : List Triple := (m.triples p (some k)).map (·.1)
 def vContains (m : Mem) (k : Key) (p : TPat) : Bool := !(vTriples m k p).isEmpty
 def vLen (m : Mem) (k : Key) : Nat := m.len (some k)
+/-- `Graph.triples_choices` of a view -/
+def vChoices (m : Mem) (k : Key) (ch : Choice) : List Triple := ch.pats.flatMap (fun p => vTriples m k p)
 
 /-! ### operations of a history -/
 
@@ -296,6 +342,7 @@ inductive Op
   | contains (tq : TQ)
   | quads (tq : TQ)
   | graphs
+  | choices (context : GArg)      -- `triples_choices(…, context)`: its effect depends on the graph argument only
   deriving Repr
 
 def step (cfg : Cfg) (m : Mem) : Op → Mem
@@ -311,6 +358,7 @@ def step (cfg : Cfg) (m : Mem) : Op → Mem
   | .contains tq => (cgContains cfg m tq).1
   | .quads tq => (cgQuads cfg m tq).1
   | .graphs => (cgGraphs cfg m).1
+  | .choices c => graphEff cfg m c
 
 def run (cfg : Cfg) (m : Mem) (ops : List Op) : Mem := ops.foldl (step cfg) m
 
